@@ -208,5 +208,5 @@ ENGINES = [
 ]
 
 NOTES = ("All checks: ./bin/check <id> quick|thorough, honour VERIF_SEED. exit 2 = inconclusive (infrastructure), never a violation. "
-         "known_findings.jsonl lists fixed defects (32 fix: commits in /repo) and the one known finding (wamp.session.kill_all is silent). "
+         "known_findings.jsonl lists fixed defects (33 fix: commits in /repo) and the one known finding (wamp.session.kill_all is silent). "
          "tools/run_seeded.py evaluates the seeded changes of /verif/seeded against the checks in a scratch worktree (VERIF_REPO). DESIGN.md section 0 describes the state as built.")
